@@ -57,3 +57,19 @@ package lspcommon
 //@          && !endFlag
 //@   loop 0 decreases len(contents) - index
 //@ end
+
+// ApplyContentChanges: every range edit is the splice old[:start] ++ text ++ old[end:] at the
+// offsets offsetForStartAndEnd returned (i.e. at the LSP positions, by its contract).
+// ASSUMED, not proved: the text held for a document is well-formed UTF-8 below 4 GiB (it arrives
+// through encoding/json, which never yields invalid UTF-8; splicing WF text at character
+// boundaries keeps it WF - an induction the SMT back ends do not do unaided).
+//@ func (*FileMapCache).ApplyContentChanges
+//@   props C02
+//@   sweep C01
+//@   loop 0 assume WF(contents, 0) && len(contents) < 4294967295
+//@   loop 0 decreases len(changes) - rangeindex
+//@   at call (*bytes.Buffer).Bytes#0 assert[splice-length] len(result) == start + len(change.Text) + len(contents) - end
+//@   at call (*bytes.Buffer).Bytes#0 assert[splice-prefix] forall(j, 0, start, result[j] == contents[j])
+//@   at call (*bytes.Buffer).Bytes#0 assert[splice-text] forall(j, 0, len(change.Text), result[start + j] == change.Text[j])
+//@   at call (*bytes.Buffer).Bytes#0 assert[splice-suffix] forall(j, end, len(contents), result[start + len(change.Text) + j - end] == contents[j])
+//@ end
